@@ -42,12 +42,12 @@ def run(tier, seed, replay=None):
     if replay:
         args += ["-replay", replay]
     res = vlib.harness_json(vctl, args, wd, timeout=3000)
-    if res.get("inconclusive"):
-        raise vlib.Inconclusive("; ".join(res["inconclusive"]))
     for viol in res["violations"]:
         v.violation(viol["sig"], viol["what"], viol["replay"])
+    if res.get("inconclusive") and not v.violations:
+        raise vlib.Inconclusive("; ".join(res["inconclusive"]))
     c = res["counters"]
-    if not replay and c.get("line_classes", 0) != nlines:
+    if not replay and c.get("line_classes", 0) != nlines and not v.violations:
         raise vlib.Inconclusive("harness handled %s of %d line classes" % (c.get("line_classes"), nlines))
     cov = {
         "evaluations": res["evaluations"], "distinct_nontrivial": res["distinct"],
